@@ -44,6 +44,15 @@ type vWorld struct {
 	onStop   func(name string, sig int)
 	onExit   func(name string, code int)
 	started  chan string // every successful Start is announced here (buffered)
+	stopLog  []vStopRec
+}
+
+type vStopRec struct {
+	name       string
+	sig        int
+	parentOnly bool
+	clk        int
+	aliveThen  bool
 }
 
 var vW *vWorld
@@ -203,6 +212,7 @@ func (c *vCmd) Stop(sig int, parentOnly bool) error {
 	w := vW
 	w.mu.Lock()
 	w.stops[c.name]++
+	w.stopLog = append(w.stopLog, vStopRec{c.name, sig, parentOnly, verifClk(), w.alive[c.name] > 0})
 	w.mu.Unlock()
 	verifEvent("stop " + c.id() + " sig " + strconv.Itoa(sig))
 	if w.onStop != nil {
